@@ -22,7 +22,7 @@ def main():
         print("patch does not apply:", p.stderr); subprocess.run(["git", "-C", "/repo", "checkout", "HEAD", "--", "."]); return 2
     out = {"patch": patch, "verus": {}, "checks": {}}
     try:
-        for cname, cfgs in (("default", []), ("autocomplete", ['feature="autocomplete"'])):
+        for cname, cfgs in (("default", []), ("autocomplete", ['feature="autocomplete"']), ("docgen", ['feature="docgen"'])):
             r = verus_run.run("/repo", os.path.join(ROOT, "contracts", "main.rs.tpl"), os.path.join(ROOT, "out", "seed_eval", cname), cfgs, name="bpaf_" + cname)
             if r.fatal:
                 out["verus"][cname] = {"fatal": r.fatal[:600]}
